@@ -10,6 +10,7 @@ fp("dask/array/creation.py", "arange", "linspace", "eye", "diag", "diagonal", "t
 fp("dask/array/chunk.py", "arange", "linspace")
 fp("dask/array/chunk.py", "arange_block", "linspace_block")   # C34: the per-block functions since the arange/linspace repairs
 fp("dask/array/wrap.py", "_parse_wrap_args", "wrap_func_shape_as_first_arg", "wrap_func_like", "full", "full_like")
+fp("dask/array/creation.py", "_get_like_function_shapes_chunks", "empty_like", "ones_like", "zeros_like", "full_like")   # C34 extension: Model/CreationLike.lean
 fp("dask/array/reshape.py", "reshape_rechunk", "_calc_lower_dimension_chunks", "_smooth_chunks", "_cal_max_chunk_size",
    "expand_tuple", "contract_tuple", "reshape")
 fp("dask/array/core.py", "concatenate", "stack", "block")
